@@ -458,7 +458,13 @@ def gen_ops(rng, k, sh, kind):
         return [(kind,)]
     if kind == 'junk':
         sh.note('junk')
-        return [msg(rng.choice(JUNK))]
+        wire = rng.choice(JUNK)
+        t, ns = packet_kind(wire)
+        if sh.live and t in (0, 4) and ns in sh.acc:
+            # a second CONNECT / a CONNECT_ERROR for a namespace that is currently accepted: outside the protocol,
+            # the checker stops judging this connection here
+            sh.note('OUT-OF-DOMAIN connect-or-refusal-for-accepted-namespace')
+        return [msg(wire)]
     return None
 
 
